@@ -3,6 +3,7 @@
 from __future__ import annotations
 
 import ast
+import re
 from typing import Dict, List, Optional, Tuple
 
 from .. import packed, codec, docs, links, parity
@@ -78,7 +79,13 @@ def codec_rows(repo: Repo, rep, P: str):
         elif rf.count.replace(" ", "") in ("len(data)//4", "len(data)>>2", "int(len(data)/4)"):
             rep.ok(f"{P}.R1", pcon, f"{rf.show()} with n = {rf.count}")
         else:
-            rep.violation(f"{P}.R1", pcon, f"{rf.show()} with n = {rf.count}", "element count must be payload length / 4", r.where)
+            cnt_ = rf.count.replace(" ", "")
+            m_ = re.fullmatch(r"len\(data\)(?:(//|>>)(\d+))?", cnt_)
+            wrong_ = m_ is not None and not ((m_.group(1) == "//" and m_.group(2) == "4") or (m_.group(1) == ">>" and m_.group(2) == "2"))
+            if wrong_:
+                rep.violation(f"{P}.R1", pcon, f"{rf.show()} with n = {rf.count}", "element count must be payload length / 4", r.where)
+            else:
+                rep.inconclusive(f"{P}.R1", pcon, f"{rf.show()} with n = {rf.count}", "element count of the link table is not of a form this rule reads", r.where)
         wf = w[0].payload.fmt
         if wf is None or not wf.variable or wf.codes != "i" or wf.order != "<":
             rep.violation(f"{P}.R1", f"{w[0].rel}:{w[0].fn}[{cid}]", w[0].payload.text, "links are little-endian signed int32 (−1 marks a freed slot)", w[0].where)
